@@ -359,8 +359,21 @@ fn shared_op<P: G>(op: &str, sh: &Shared<P>) -> Vec<u8> {
 }
 
 fn shared_schedule_case<P: G>(ops: Vec<usize>, bound: usize) -> Box<dyn Case> {
+    shared_schedule_case_opts::<P>(ops, bound, false)
+}
+
+/// `alloc_points`: every heap allocation is a scheduling point too ("preempted anywhere once" when bound = 1)
+fn shared_schedule_case_tagged<P: G>(ops: Vec<usize>, bound: usize, tag: &'static str) -> Box<dyn Case> {
+    shared_schedule_case_full::<P>(ops, bound, false, tag)
+}
+
+fn shared_schedule_case_opts<P: G>(ops: Vec<usize>, bound: usize, alloc_points: bool) -> Box<dyn Case> {
+    shared_schedule_case_full::<P>(ops, bound, alloc_points, if alloc_points { "/every-allocation" } else { "" })
+}
+
+fn shared_schedule_case_full<P: G>(ops: Vec<usize>, bound: usize, alloc_points: bool, gran: &'static str) -> Box<dyn Case> {
     let name: Vec<&str> = ops.iter().map(|k| SOPS[*k]).collect();
-    case(format!("{}/shared-params/{}", P::NAME, name.join("||")), move |_v| {
+    case(format!("{}/shared-params{}/{}", P::NAME, gran, name.join("||")), move |_v| {
         fg::clear_intern();
         let mut res = CaseResult::new("identical");
         // sequential baseline: each op alone on a fresh shared parameter object, then the probe calls
@@ -390,7 +403,7 @@ fn shared_schedule_case<P: G>(ops: Vec<usize>, bound: usize) -> Box<dyn Case> {
                     Box::new(move || shared_op::<P>(op, &sh)) as Body
                 })
                 .collect();
-            let mut x = sched::run_execution(bodies, prefix, true, Some(intern.clone()));
+            let mut x = sched::run_execution_opts(bodies, prefix, true, Some(intern.clone()), alloc_points);
             for op in PROBES {
                 x.results.push(catch(|| shared_op::<P>(op, &sh)));
             }
@@ -424,6 +437,7 @@ fn shared_schedule_case<P: G>(ops: Vec<usize>, bound: usize) -> Box<dyn Case> {
         res.executions = stats.schedules * ops.len() as u64;
         res.validated = stats.schedules;
         *res.outcome_counter("schedules-explored") += stats.schedules;
+        *res.outcome_counter("schedules-with-a-blocked-thread(uncontrolled)") += stats.stolen;
         *res.outcome_counter(&format!("max-points:{}", stats.max_points / 10 * 10)) += 1;
         for (k, v) in stats.violations.into_iter().take(5) {
             res.outcome = "differs".into();
@@ -525,6 +539,16 @@ pub fn child_bodies(name: &str) -> Option<Vec<Body>> {
             RistrettoPoint::to_bytes(&proof)
         })
     };
+    let verify_body_n = |n: usize| -> Body {
+        let (wit, bytes) = ref_made_proof(n, 1);
+        Box::new(move || {
+            let cfg = Cfg::new(n, 1, 1, 1);
+            let pc = create_pedersen_gens_with_extension_degree(ext(1));
+            let built = build_with_pc::<RistrettoPoint>(&cfg, &wit, pc).unwrap();
+            let proof = RistrettoPoint::from_bytes(&bytes).unwrap();
+            verify_bytes(&[built.statement.clone()], &[proof], &[CTX_A], VerifyAction::VerifyOnly)
+        })
+    };
     let verify_body = || -> Body {
         let (wit, bytes) = ref_made_proof(2, 1);
         Box::new(move || {
@@ -539,6 +563,8 @@ pub fn child_bodies(name: &str) -> Option<Vec<Body>> {
         "gens-2" => vec![gens_body(6), gens_body(1)],
         "gens-3" => vec![gens_body(6), gens_body(1), params_body()],
         "prove-verify" => vec![prove_body(), verify_body()],
+        // two verifications racing at first use, with different bit lengths
+        "verify-verify" => vec![verify_body_n(2), verify_body_n(16)],
         "prove-gens-verify" => vec![prove_body(), gens_body(3), verify_body()],
         _ => return None,
     })
@@ -563,6 +589,7 @@ pub fn expected_results(name: &str) -> Vec<Option<Vec<u8>>> {
         "gens-2" => [vec![Some(pedersen_bytes(&ref_pedersen(6))), Some(pedersen_bytes(&ref_pedersen(1)))], probe_expectations()].concat(),
         "gens-3" => [vec![Some(pedersen_bytes(&ref_pedersen(6))), Some(pedersen_bytes(&ref_pedersen(1))), None], probe_expectations()].concat(),
         "prove-verify" => [vec![None, Some(b"OK\x00".to_vec())], probe_expectations()].concat(),
+        "verify-verify" => [vec![Some(b"OK\x00".to_vec()), Some(b"OK\x00".to_vec())], probe_expectations()].concat(),
         "prove-gens-verify" => [vec![None, Some(pedersen_bytes(&ref_pedersen(3))), Some(b"OK\x00".to_vec())], probe_expectations()].concat(),
         _ => vec![],
     }
@@ -627,7 +654,7 @@ pub fn run(rep: &mut Report) {
     sched::install_hooks();
     // quick: scheduling points at challenge draws, transcript-RNG finalisation, the once-cells and the shared
     // precomputed table; thorough: at every transcript and group operation
-    sched::set_fine(thorough);
+    sched::set_fine(false);
     // the cached arrays of this process are initialised before any in-process schedule exploration
     let _ = create_pedersen_gens_with_extension_degree(ext(6));
     let scan = source_scan();
@@ -678,9 +705,13 @@ pub fn run(rep: &mut Report) {
     // interleavings up to renaming the threads, and the preemption count is symmetric
     for a in 0..SOPS.len() {
         for b in a..SOPS.len() {
+            // coarse scheduling points (challenge draws, RNG finalisation, shared table, once-cell events): bound 2 / 3
             cases.push(shared_schedule_case::<F>(vec![a, b], bound));
             cases.push(shared_schedule_case::<RistrettoPoint>(vec![a, b], bound));
+            // finest granularity: a preemption at any heap allocation, once
+            cases.push(shared_schedule_case_opts::<RistrettoPoint>(vec![a, b], 1, true));
             if thorough {
+                cases.push(shared_schedule_case_opts::<F>(vec![a, b], 1, true));
                 for c in [0usize, 2, 5] {
                     cases.push(shared_schedule_case::<F>(vec![a, b, c], 2));
                 }
@@ -688,6 +719,19 @@ pub fn run(rep: &mut Report) {
         }
     }
     rep.explore("C18", cases);
+    if thorough {
+        // every transcript operation and every group operation a scheduling point, bound 2
+        sched::set_fine(true);
+        let mut fine: Vec<Box<dyn Case>> = Vec::new();
+        for a in 0..SOPS.len() {
+            for b in a..SOPS.len() {
+                fine.push(shared_schedule_case_tagged::<F>(vec![a, b], 2, "/every-transcript-and-group-op"));
+                fine.push(shared_schedule_case_tagged::<RistrettoPoint>(vec![a, b], 2, "/every-transcript-and-group-op"));
+            }
+        }
+        rep.explore("C18", fine);
+        sched::set_fine(false);
+    }
     let t2 = rep.wall();
 
     // (c)
